@@ -143,7 +143,7 @@ Example ex_calls : map (fun c => match c with CStartPath _ _ _ => 1 | CDraw op _
 Proof. vm_compute. reflexivity. Qed.
 
 (* non-vacuity for the converter: "M1 2l3-4 5 6 zM7 8h-.5" *)
-Definition mk (sp : nat) (sg ip : list Z) (fr : option (list Z)) := mkMnum sp sg ip fr.
+Definition mk (sp : nat) (sg ip : list Z) (fr : option (list Z)) := mkMnum sp sg ip fr None.
 Definition ex_mpath : list mcmd :=
   [ MCmd 0 77 [mk 0 [] [49] None; mk 1 [] [50] None] [];
     MCmd 0 108 [mk 0 [] [51] None; mk 0 [45] [52] None] [[mk 1 [] [53] None; mk 1 [] [54] None]];
